@@ -216,6 +216,11 @@ def route_case(ctx, case):
                     raise e
                 if h['do'] == 'reraise':
                     raise exc
+                if h['do'] == 'bare_raise':
+                    # 'dispatched like a try/except chain': inside a handler
+                    # the exception being handled is the interpreter's
+                    # active exception, so the bare form re-raises it
+                    raise               # noqa: PLE0704
                 if h['do'] == 'bye':
                     # graceful shutdown from a handler: queue a farewell and
                     # call the plain (flushing) disconnect()
@@ -351,7 +356,7 @@ def route_case(ctx, case):
             if h['do'] == 'raise':
                 current = ('made', h['id'])
                 continue
-            if h['do'] == 'reraise':
+            if h['do'] in ('reraise', 'bare_raise'):
                 continue
             if h['do'] in ('reconnect', 'reconnect_direct') and \
                     not did_reconnect:
@@ -457,7 +462,8 @@ def handler_strategy():
         'filter': st.sampled_from(FILTERS).map(list),
         'early': st.booleans(),
         'do': st.sampled_from(['return', 'raise', 'raise', 'reraise',
-                               'reconnect', 'reconnect_direct', 'bye']),
+                               'reconnect', 'reconnect_direct', 'bye',
+                               'bare_raise']),
         'new': st.sampled_from(sorted(CLASSES))})
 
 
@@ -485,6 +491,13 @@ def fix_case(c):
         # a farewell needs a live play-state session to be sent on
         c = dict(c, chain=[dict(h, do='return') if h['do'] == 'bye' else h
                            for h in c['chain']])
+    if any(h['do'] == 'raise' for h in c['chain']) or \
+            c['origin'] == 'hook_raises':
+        # once a handler (or the built-in hook) has replaced the exception,
+        # which one a bare raise re-raises is the interpreter's business:
+        # only asserted while the original exception is the current one
+        c = dict(c, chain=[dict(h, do='reraise') if h['do'] == 'bare_raise'
+                           else h for h in c['chain']])
     if c['origin'] == 'hook_raises':
         # after the refused fallback there is nothing to reconnect to in
         # the same breath: keep handlers to return/raise/reraise
@@ -533,7 +546,13 @@ def t_origins(ctx):
                           [{'filter': [], 'early': False,
                             'do': 'reconnect_direct'}],
                           [{'filter': ['C'], 'early': False, 'do': 'return'},
-                           {'filter': [], 'early': False, 'do': 'bye'}]):
+                           {'filter': [], 'early': False, 'do': 'bye'}],
+                          [{'filter': ['B'], 'early': False,
+                            'do': 'bare_raise'},
+                           {'filter': ['A'], 'early': False,
+                            'do': 'return'}],
+                          [{'filter': [], 'early': True,
+                            'do': 'bare_raise'}]):
                 for comp in (None, 256):
                     route_case(ctx, fix_case({
                         'origin': origin, 'exc': 'B', 'chain': chain,
@@ -556,7 +575,7 @@ def t_origins(ctx):
                         'origin': origin, 'exc': 'B', 'chain': chain,
                         'final': final, 'final_new': 'EOFError',
                         'compress': None, 'version': 757, 'reset': True}))
-    ctx.exhaustive_done('9 origins x 4 finals x 6 chains x 2 compression '
+    ctx.exhaustive_done('9 origins x 4 finals x 8 chains x 2 compression '
                         'modes')
 
 
